@@ -48,6 +48,26 @@ def _file_signature(filename):
     return own + ":" + _dir_signature(os.path.dirname(filename))
 
 
+def rss_mb():
+    try:
+        with open("/proc/self/statm") as handle:
+            return int(handle.read().split()[1]) * os.sysconf("SC_PAGE_SIZE") / 1e6
+    except (OSError, ValueError, IndexError):
+        return 0.0
+
+
+def trim(limit_mb=700.0):
+    """Bound the memory of a long-lived pool process: drop the whole memo once the process grows beyond the limit."""
+    if rss_mb() > limit_mb:
+        import gc
+        _CACHE.clear()
+        _FILE_SIG.clear()
+        gc.collect()
+        STATS["trims"] = STATS.get("trims", 0) + 1
+        return True
+    return False
+
+
 def forget_files():
     """Drop file signatures (call when configuration files may have changed)."""
     _FILE_SIG.clear()
